@@ -64,6 +64,8 @@ def gen(rng, n, ncalls_max, cancels=False, behaviours=True, keys=3, retention=No
             if rng.random() < 0.2:
                 sc['batch_durs'] = {str(rng.randint(1, 3)): rng.choice([0.0, 3 * bt + 1.0])}
         sc['excfam'] = rng.choice(['plain', 'plain', 'key', 'runtime', 'timeout'])
+        if rng.random() < 0.2:          # another batcher object served the same keys before (and still retains them)
+            sc['warm_other'] = True
         if rng.random() < 0.25:         # garbage collections at arbitrary instants change nothing
             sc['gc_at'] = sorted(rng.choice([0.0, 0.5, 1.0, bt, bt + 0.5, 2 * bt, 2 * bt + 1.0, 3 * bt]) + rng.choice([0.0, 0.25])
                                  for _ in range(rng.randint(1, 3)))
